@@ -275,12 +275,16 @@ def dtype_sweep(ctx, rounds):
            ('linear_fit.perpendicular_distance', lf.perpendicular_distance, ()), ('linear_fit.linear_hv_residuals_points', lf.linear_hv_residuals_points, ())]
     for _ in range(rounds):
         n = rng.randrange(8, 32)
-        kind = rng.choice(['near-chord', 'decay', 'walk'])
+        kind = rng.choice(['near-chord', 'decay', 'walk', 'large'])
         x = np.cumsum([rng.choice([1, 1, 2, 3]) for _ in range(n)])
         if kind == 'near-chord':
             m = rng.choice([-4, -3, -2, 2, 3, 5])
             y = np.array([m * xi + rng.choice([-2, -1, 0, 0, 1, 2]) for xi in x])
             y = y - y.min()
+        elif kind == 'large':
+            # byte-count / request-count sized integers with wide x steps: int64 intermediates (squares, products of squares) must not wrap
+            x = x * rng.choice([50, 1000])
+            y = np.array(sorted((rng.randrange(0, 200000) for _ in range(n)), reverse=True))
         elif kind == 'decay':
             y = np.array(sorted((rng.randrange(0, 100) for _ in range(n)), reverse=True))
         else:
